@@ -907,3 +907,71 @@ Proof.
       apply andb_true_iff in Dg. destruct Dg as [Dc Dr]. destruct r; [exact Dc|]. apply IH; [discriminate|exact Dr]. }
     rewrite L in D. discriminate.
 Qed.
+
+(* ---------- two formats in one directory (C20): Prune and Verify of one format leave the other's files alone ---------- *)
+
+Lemma chunk_name_not_tmp i unc : is_tmp (hex_id i ++ ext_of unc) = false.
+Proof.
+  destruct (is_tmp (hex_id i ++ ext_of unc)) eqn:T; [exfalso|reflexivity].
+  unfold is_tmp, has_prefix in T. apply bytes_eqb_eq in T.
+  apply (tmp_name_neq_chunk_name (skipn (length tmpChunkPrefix_bytes) (hex_id i ++ ext_of unc)) i unc).
+  unfold tmp_name. rewrite <- T at 1. apply firstn_skipn.
+Qed.
+
+Definition other_format (st : store) : store := mkStore (st_base st) (negb (st_unc st)) (st_skip st).
+
+Lemma canon_other_neq st i j : wf_id i -> wf_id j -> canon (other_format st) j <> canon st i.
+Proof.
+  intros Wi Wj E. destruct st as [b z k]. unfold other_format, canon in E. cbn [st_base st_unc st_skip] in E.
+  apply name_from_id_inj in E; [|exact Wj|exact Wi]. destruct E as [_ E]. destruct z; discriminate.
+Qed.
+
+Lemma prune_leaves_other_format tmp_rule st keep fuel bstr s0 s' e j :
+  prune_gen tmp_rule fuel st bstr keep s0 = (s', e) -> wf_id j ->
+  stat (canon (other_format st) j) s' = stat (canon (other_format st) j) s0.
+Proof.
+  intros P Wj. destruct (prune_safe _ _ _ _ _ _ _ _ P (canon (other_format st) j)) as [E|(_ & _ & [[_ T]|(i & Wi & _ & Q)])].
+  - exact E.
+  - rewrite last_canon, chunk_name_not_tmp in T. discriminate.
+  - exfalso. exact (canon_other_neq st i j Wi Wj Q).
+Qed.
+
+Lemma in_sprefixes_split q p : In q (sprefixes p) -> exists t, t <> [] /\ p = q ++ t.
+Proof.
+  revert q. induction p as [|nm rest IH]; intros q I; [destruct I|]. cbn [sprefixes] in I.
+  destruct I as [<-|I]; [exists (nm :: rest); split; [discriminate|reflexivity]|].
+  apply in_map_iff in I. destruct I as (x & <- & I). destruct (IH _ I) as (t & Nt & ->).
+  exists t. split; [exact Nt|reflexivity].
+Qed.
+
+(* below an existing directory a missing name is plain ENOENT *)
+Lemma probe_missing_in_dir d nm s : is_dir (stat d s) = true -> stat (d ++ [nm]) s = None ->
+  probe (d ++ [nm]) s = Err ENOENT.
+Proof.
+  intros D N. rewrite probe_char, N.
+  replace (existsb (fun q => nondir (stat q s)) (sprefixes (d ++ [nm]))) with false; [reflexivity|].
+  symmetry. apply not_true_is_false. intros E. apply existsb_exists in E. destruct E as (q & I & Nd).
+  apply in_sprefixes_split in I. destruct I as (t & Nt & E).
+  destruct (exists_last Nt) as (t' & nm' & ->). rewrite app_assoc in E. apply app_inj_tail in E. destruct E as [E _].
+  assert (Dq : is_dir (stat q s) = true).
+  { destruct t' as [|x t'']; [rewrite app_nil_r in E; now subst q|].
+    destruct (is_dir (stat q s)) eqn:Q; [reflexivity|exfalso].
+    rewrite E, stat_below_nondir in D by (try discriminate; exact Q). discriminate. }
+  destruct (stat q s) as [[| |]|]; cbn in Dq, Nd; discriminate.
+Qed.
+
+Lemma verify_leaves_other_format (H : bytes -> id) zdecomp st fuel bstr repair s0 s' msgs j :
+  is_dir (stat (st_base st) s0) = true ->
+  verify H zdecomp fuel st bstr repair s0 = (s', msgs, None) -> wf_id j ->
+  stat (canon (other_format st) j) s' = stat (canon (other_format st) j) s0 /\
+  (is_dir (stat (fst (name_from_id st j)) s0) = true -> stat (canon st j) s0 = None -> ~ In j (reported msgs)).
+Proof.
+  intros D V Wj. destruct (verify_exact H zdecomp st _ _ _ _ _ _ D V) as (A1 & _ & _ & A4 & _).
+  split.
+  - destruct (A4 (canon (other_format st) j)) as [E|(_ & _ & i & Ii & Q)]; [exact E|exfalso].
+    destruct (A1 i Ii) as [Wi _]. exact (canon_other_neq st i j Wi Wj Q).
+  - intros Dd N I. destruct (A1 j I) as [_ [sum G]].
+    assert (P : probe (snd (name_from_id st j)) s0 = Err ENOENT).
+    { unfold canon, name_from_id in N, Dd |- *. cbn [fst snd] in N, Dd |- *. exact (probe_missing_in_dir _ _ _ Dd N). }
+    unfold LocalStore.get_chunk, read_file in G. rewrite P in G. discriminate.
+Qed.
